@@ -336,11 +336,92 @@ def execute(engine, run_seed, cfg=None, ops=None, keep_events=False, wall=30):
 
 
 # --------------------------------------------------------------------------
+# process isolation
+#
+# The library under test may keep state at module level (a cache, a shared default array, a table rebuilt in place).
+# A run's outcome is then a function of the runs executed earlier in the same process.  To keep "one seed = one
+# repeatable execution" true even then, runs are executed in freshly forked children of a process that has never
+# executed a run: the state a run can see is (pristine process) + (the runs listed in its prelude, in order).
+
+def in_fork(fn, timeout=600):
+    """Runs fn() in a forked child and returns its (picklable) result.  Raises HarnessError when the child dies,
+    hangs or raises."""
+    import pickle
+    import select
+    rfd, wfd = os.pipe()
+    sys.stdout.flush()
+    sys.stderr.flush()
+    pid = os.fork()
+    if pid == 0:
+        code = 0
+        try:
+            os.close(rfd)
+            try:
+                payload = pickle.dumps(('ok', fn()), protocol=pickle.HIGHEST_PROTOCOL)
+            except BaseException as e:      # noqa: BLE001
+                payload = pickle.dumps(('err', ''.join(traceback.format_exception(type(e), e, e.__traceback__))[-4000:]))
+            with os.fdopen(wfd, 'wb') as f:
+                f.write(payload)
+        except BaseException:               # noqa: BLE001
+            code = 1
+        finally:
+            os._exit(code)
+    os.close(wfd)
+    chunks = []
+    try:
+        import time as _time
+        deadline = _time.monotonic() + timeout
+        while True:
+            left = deadline - _time.monotonic()
+            if left <= 0:
+                os.kill(pid, signal.SIGKILL)
+                raise HarnessError('isolated child exceeded %ss' % timeout)
+            ready, _, _ = select.select([rfd], [], [], min(left, 5.0))
+            if not ready:
+                continue
+            b = os.read(rfd, 1 << 20)
+            if not b:
+                break
+            chunks.append(b)
+    finally:
+        os.close(rfd)
+        try:
+            os.waitpid(pid, 0)
+        except ChildProcessError:
+            pass
+    if not chunks:
+        raise HarnessError('isolated child died without a result')
+    tag, val = pickle.loads(b''.join(chunks))
+    if tag != 'ok':
+        raise HarnessError('isolated child raised:\n' + val)
+    return val
+
+
+def run_prelude(engine, prelude_seeds, wall=30):
+    """Executes earlier runs of a chunk (generated from their seeds) for the state they leave behind."""
+    for rs in prelude_seeds or []:
+        try:
+            execute(engine, rs, wall=wall)
+        except Exception:               # noqa: BLE001 - only their side effects matter here
+            pass
+
+
+def execute_isolated(engine, run_seed, cfg=None, ops=None, prelude_seeds=None, keep_events=False, wall=30):
+    def job():
+        run_prelude(engine, prelude_seeds, wall)
+        r = execute(engine, run_seed, cfg, ops, keep_events=keep_events, wall=wall)
+        r['sigs'] = sorted(r['sigs'])
+        return r
+    return in_fork(job, timeout=wall * (2 + len(prelude_seeds or [])) + 30)
+
+
+# --------------------------------------------------------------------------
 # minimisation (delta debugging over the op list, then per-op simplification)
 
-def minimise(engine, run_seed, cfg, ops, target_sig, budget=300, wall=30):
+def minimise(engine, run_seed, cfg, ops, target_sig, budget=300, wall=30, prelude_seeds=None):
     """Shrinks `ops` while a violation with the same (clause, site, klass)
-    persists.  Returns (ops, result_of_last_failing_execution, executions)."""
+    persists.  Every candidate runs in a fresh fork (after the prelude, if any).
+    Returns (ops, result_of_last_failing_execution, executions)."""
     used = [0]
 
     def fails(cand):
@@ -348,7 +429,7 @@ def minimise(engine, run_seed, cfg, ops, target_sig, budget=300, wall=30):
             return None
         used[0] += 1
         try:
-            r = execute(engine, run_seed, cfg, cand, wall=wall)
+            r = execute_isolated(engine, run_seed, cfg, cand, prelude_seeds=prelude_seeds, wall=wall)
         except HarnessError:
             return None
         except Exception:           # noqa: BLE001 - candidate made the harness trip
